@@ -55,44 +55,78 @@ func (P *Prog) modeConfigs() []*modeConfig {
 			if !ok {
 				continue
 			}
-			mc := &modeConfig{enc: enc, fn: fn, call: ci, opts: map[string]int64{}, optsType: st}
-			ot := P.terms.of(args[0])
-			for i := 0; i < st.NumFields(); i++ {
-				name := st.Field(i).Name()
-				ft := projectField(ot, name)
-				switch ft.Op {
-				case "const":
-					if n, err := strconv.ParseInt(ft.S, 10, 64); err == nil {
-						mc.opts[name] = n
-					} else if ft.S == "true" {
-						mc.opts[name] = 1
-					} else if ft.S == "false" {
+			build := func(ot *Term, holder ssa.Instruction) *modeConfig {
+				mc := &modeConfig{enc: enc, fn: fn, call: ci, opts: map[string]int64{}, optsType: st}
+				for i := 0; i < st.NumFields(); i++ {
+					name := st.Field(i).Name()
+					ft := projectField(ot, name)
+					switch ft.Op {
+					case "const":
+						if n, err := strconv.ParseInt(ft.S, 10, 64); err == nil {
+							mc.opts[name] = n
+						} else if ft.S == "true" {
+							mc.opts[name] = 1
+						} else if ft.S == "false" {
+							mc.opts[name] = 0
+						} else {
+							mc.unknown = append(mc.unknown, name+"="+ft.String())
+						}
+					case "zero", "nil":
 						mc.opts[name] = 0
-					} else {
+					default:
 						mc.unknown = append(mc.unknown, name+"="+ft.String())
 					}
-				case "zero", "nil":
-					mc.opts[name] = 0
-				default:
-					mc.unknown = append(mc.unknown, name+"="+ft.String())
 				}
-			}
-			// which global receives result 0?
-			if v, ok := ci.(ssa.Value); ok {
-				for _, ref := range *v.Referrers() {
-					ex, ok := ref.(*ssa.Extract)
-					if !ok || ex.Index != 0 {
-						continue
-					}
-					for _, r2 := range *ex.Referrers() {
-						if st, ok := r2.(*ssa.Store); ok {
-							if g, ok := st.Addr.(*ssa.Global); ok {
+				// which global receives the mode? holder's value (result 0 when
+				// a tuple) stored into a package variable
+				if v, ok := holder.(ssa.Value); ok && v.Referrers() != nil {
+					for _, ref := range *v.Referrers() {
+						switch u := ref.(type) {
+						case *ssa.Extract:
+							if u.Index != 0 {
+								continue
+							}
+							for _, r2 := range *u.Referrers() {
+								if st, ok := r2.(*ssa.Store); ok {
+									if g, ok := st.Addr.(*ssa.Global); ok {
+										mc.global = g.Name()
+									}
+								}
+							}
+						case *ssa.Store:
+							if g, ok := u.Addr.(*ssa.Global); ok && u.Val == v {
 								mc.global = g.Name()
 							}
 						}
 					}
 				}
+				return mc
 			}
+			ot := P.terms.of(args[0])
+			usesParam := ot.contains(func(u *Term) bool { return u.Op == "param" })
+			if usesParam && P.returnsResult0Of(fn, ci) {
+				// a construction helper: one configuration per call of the helper
+				n := 0
+				for _, caller := range P.allFuncsInclInit() {
+					for _, ci2 := range callsIn(caller, nil) {
+						if staticCallee(ci2) != fn {
+							continue
+						}
+						m := map[string]*Term{}
+						for i, a := range ci2.Common().Args {
+							m[strconv.Itoa(i)] = P.terms.of(a)
+						}
+						mc := build(ot.subst(m), ci2)
+						mc.fn, mc.call = caller, ci2
+						out = append(out, mc)
+						n++
+					}
+				}
+				if n > 0 {
+					continue
+				}
+			}
+			mc := build(ot, ci)
 			out = append(out, mc)
 		}
 	}
@@ -534,4 +568,38 @@ func (P *Prog) foldGlobals(t *Term) *Term {
 		}
 		return r
 	})
+}
+
+// returnsResult0Of: every Return of fn hands back result 0 of call ci as its
+// first result (fn is a thin construction helper around ci).
+func (P *Prog) returnsResult0Of(fn *ssa.Function, ci ssa.CallInstruction) bool {
+	v, ok := ci.(ssa.Value)
+	if !ok {
+		return false
+	}
+	n := 0
+	for _, b := range fn.Blocks {
+		ret, ok := b.Instrs[len(b.Instrs)-1].(*ssa.Return)
+		if !ok {
+			continue
+		}
+		if len(ret.Results) == 0 {
+			return false
+		}
+		r0 := ret.Results[0]
+		if ex, ok := r0.(*ssa.Extract); ok && ex.Tuple == v && ex.Index == 0 {
+			n++
+			continue
+		}
+		if r0 == v {
+			n++
+			continue
+		}
+		// an error-path return of a zero value does not deliver a mode
+		if c, ok := r0.(*ssa.Const); ok && c.IsNil() {
+			continue
+		}
+		return false
+	}
+	return n > 0
 }
